@@ -42,11 +42,11 @@ def summarise(prog, limit=60000):
     pending = [n for n, t in roles[fx]["fields"].items() if t.startswith("std::option::Option<") and n in roles[fx]["session_fields"]]
     pend = pending[0] if pending else None
     kvp = processor(prog)
-    b = prog.body(kvp)
+    from . import roles as _roles
+    b = _roles.ib_paths(prog, kvp)       # private helpers (split-off branches, conversion functions) spliced in
     cls = classes.class_fns(prog)
     cls_by_key = {v: k for k, v in cls.items()}
     out = []
-    paths = enumerate_paths(b, 0, limit)
 
     def is_value(e):
         e = peel_conv(e)
@@ -158,87 +158,145 @@ def summarise(prog, limit=60000):
             return ("value_last_switch", allv), vals
         return None
 
-    for path in paths:
-        s = Summary()
-        s.path = path
-        env = {}
-        wrote_buf = False
-        wrote_pend = False
-        for (bb, vals) in path:
-            blk = b.blocks[bb]
-            for j, st in enumerate(blk["stmts"]):
-                if st["k"] != "assign":
+    import copy
+    import sys
+    from engine.analyses import known_switch_value
+    sys.setrecursionlimit(max(20000, sys.getrecursionlimit()))
+
+    def clone(s):
+        n = Summary()
+        n.atoms = list(s.atoms)
+        n.effects = list(s.effects)
+        n.unknown = list(s.unknown)
+        n.events = list(s.events)
+        n.tainted = s.tainted
+        return n
+
+    def step_block(bb, s, env, st):
+        """Process statements and the call terminator of block bb; returns new env."""
+        blk = b.blocks[bb]
+        for j, stt in enumerate(blk["stmts"]):
+            if stt["k"] != "assign":
+                continue
+            val = b.expr_rvalue(stt["rv"], 0, stt, env)
+            if stt["place"]["p"]:
+                lhs = b.expr_place(stt["place"], 0, env)
+                spx = self_path(lhs)
+                if spx == (pend,):
+                    v = strip_refs(val)
+                    if v.k == "agg" and str(v.a[0]).endswith("Option::None"):
+                        eff = ("pending", None)
+                    elif v.k == "agg" and str(v.a[0]).endswith("Option::Some"):
+                        inner = strip_refs(v.a[1][0])
+                        eff = ("pending", inner.a[0].split("::")[-1] if inner.k == "agg" else repr(inner))
+                    else:
+                        eff = ("pending", repr(v))
+                    s.effects.append(eff)
+                    s.events.append(("eff", eff))
+                    st["wrote_pend"] = True
+                elif spx is not None and spx != ():
+                    eff = ("assign", ".".join(spx))
+                    s.effects.append(eff)
+                    s.events.append(("eff", eff))
+                elif stt["place"]["p"][0] != "*":
+                    env[stt["place"]["l"]] = E("local", stt["place"]["l"])
+            else:
+                env[stt["place"]["l"]] = val
+        t = blk["term"]
+        if t["k"] == "call":
+            name = callee_name(t)
+            args = [b.expr_operand(a, 0, env) for a in t["args"]]
+            eff = None
+            if t["args"] and t["args"][0]["k"] != "const" and t["args"][0]["place"]["ty"].startswith("&mut "):
+                spx = self_path(args[0])
+                if spx == (buf,):
+                    op = name.split("::")[-1]
+                    if op == "push":
+                        v = strip_refs(args[1])
+                        if is_const(v, "char"):
+                            eff = ("push", const_val(v))
+                        elif is_character(v):
+                            eff = ("push", "<character>")
+                        elif is_popped(v):
+                            eff = ("push", "<popped>")
+                        else:
+                            eff = ("push", repr(v)[:80])
+                    elif op == "push_str":
+                        v = peel_conv(args[1])
+                        eff = ("push_str", "<value>" if is_value(v) else repr(v)[:80])
+                    elif op == "pop":
+                        eff = ("pop",)
+                    else:
+                        eff = (op,)
+                    st["wrote_buf"] = True
+                elif spx == () and name in prog.fns:
+                    eff = ("recurse",) if name == kvp else ("call", name.split("::")[-1])
+                    st["wrote_buf"] = True
+                    st["wrote_pend"] = True
+                elif spx == (pend,):
+                    op = name.split("::")[-1]
+                    if op == "take":
+                        eff = ("pending", None)
+                    else:
+                        eff = ("write", pend, op)
+                    st["wrote_pend"] = True
+                elif spx is not None and spx != ():
+                    eff = ("write", ".".join(spx), name.split("::")[-1])
+            if eff is not None:
+                s.effects.append(eff)
+                s.events.append(("eff", eff))
+            if not t["dest"]["p"]:
+                env[t["dest"]["l"]] = E("call", name, tuple(args), bb, t=t)
+        return env
+
+    def rec(bb, s, env, st, path, onpath):
+        if len(out) > limit:
+            raise PathLimit("too many paths in the key-value processor")
+        if bb in onpath:
+            raise PathLimit("loop in the key-value processor")
+        env = dict(env)
+        st = dict(st)
+        env = step_block(bb, s, env, st)
+        t = b.blocks[bb]["term"]
+        k = t["k"]
+        if k == "return":
+            s.path = path + [(bb, None)]
+            out.append(s)
+            return
+        if k == "switch":
+            d = b.expr_operand(t["discr"], 0, env)
+            kv = known_switch_value(d)
+            allv = tuple(v for v, _ in t["targets"])
+            edges = b.switch_edges(bb)
+            for (node, vals, tgt) in edges:
+                if kv is not None:
+                    take = (kv in vals) if vals != "otherwise" else (kv not in allv)
+                    if not take:
+                        continue
+                    rec(tgt, s if len(edges) == 1 else clone(s), env, st, path + [(bb, vals)], onpath | {bb})
                     continue
-                val = b.expr_rvalue(st["rv"], 0, st, env)
-                if st["place"]["p"]:
-                    lhs = b.expr_place(st["place"], 0, env)
-                    spx = self_path(lhs)
-                    if spx == (pend,):
-                        v = strip_refs(val)
-                        if v.k == "agg" and str(v.a[0]).endswith("Option::None"):
-                            s.effects.append(("pending", None))
-                        elif v.k == "agg" and str(v.a[0]).endswith("Option::Some"):
-                            inner = strip_refs(v.a[1][0])
-                            s.effects.append(("pending", inner.a[0].split("::")[-1] if inner.k == "agg" else repr(inner)))
-                        else:
-                            s.effects.append(("pending", repr(v)))
-                        wrote_pend = True
-                    elif spx is not None:
-                        s.effects.append(("assign", ".".join(spx)))
-                else:
-                    env[st["place"]["l"]] = val
-            t = blk["term"]
-            if t["k"] == "call":
-                name = callee_name(t)
-                args = [b.expr_operand(a, 0, env) for a in t["args"]]
-                if t["args"] and t["args"][0]["k"] != "const" and t["args"][0]["place"]["ty"].startswith("&mut "):
-                    spx = self_path(args[0])
-                    if spx == (buf,):
-                        op = name.split("::")[-1]
-                        if op == "push":
-                            v = strip_refs(args[1])
-                            if is_const(v, "char"):
-                                s.effects.append(("push", const_val(v)))
-                            elif is_character(v):
-                                s.effects.append(("push", "<character>"))
-                            elif is_popped(v):
-                                s.effects.append(("push", "<popped>"))
-                            else:
-                                s.effects.append(("push", repr(v)[:80]))
-                        elif op == "push_str":
-                            v = peel_conv(args[1])
-                            s.effects.append(("push_str", "<value>" if is_value(v) else repr(v)[:80]))
-                        elif op == "pop":
-                            s.effects.append(("pop",))
-                        else:
-                            s.effects.append((op,))
-                        wrote_buf = True
-                    elif spx == () and name in prog.fns:
-                        s.effects.append(("recurse",) if name == kvp else ("call", name.split("::")[-1]))
-                        wrote_buf = True
-                        wrote_pend = True
-                    elif spx is not None and spx != ():
-                        s.effects.append(("write", ".".join(spx), name.split("::")[-1]))
-                if not t["dest"]["p"]:
-                    env[t["dest"]["l"]] = E("call", name, tuple(args), bb, t=t)
-            elif t["k"] == "switch" and vals is not None:
-                d = b.expr_operand(t["discr"], 0, env)
-                allv = tuple(v for v, _ in t["targets"])
-                cl = classify(d, vals, allv, t["discr_ty"], s, wrote_buf, wrote_pend)
+                s2 = clone(s)
+                cl = classify(d, vals, allv, t["discr_ty"], s2, st.get("wrote_buf"), st.get("wrote_pend"))
                 if cl is None:
-                    # drop flags and the like
+                    drop_flag = False
                     if t["discr"]["k"] != "const" and not t["discr"]["place"]["p"]:
                         defs = b.defs.get(t["discr"]["place"]["l"], [])
-                        if defs and all(d_[2] == "assign" and d_[3]["rv"]["k"] == "use" and "bool" in d_[3]["rv"]["op"] for d_ in defs):
-                            continue
-                    s.unknown.append((strip_refs(d), vals, bb))
+                        drop_flag = bool(defs) and all(d_[2] == "assign" and d_[3]["rv"]["k"] == "use" and "bool" in d_[3]["rv"]["op"] for d_ in defs)
+                    if not drop_flag:
+                        s2.unknown.append((strip_refs(d), vals, bb))
                 else:
-                    s.atoms.append(cl)
-                    s.events.append(("atom", cl[0], cl[1]))
-            # effects appended during this block
-            while len([e for e in s.events if e[0] == "eff"]) < len(s.effects):
-                s.events.append(("eff", s.effects[len([e for e in s.events if e[0] == "eff"])]))
-        out.append(s)
+                    s2.atoms.append(cl)
+                    s2.events.append(("atom", cl[0], cl[1]))
+                rec(tgt, s2, env, st, path + [(bb, vals)], onpath | {bb})
+            return
+        if k in ("goto", "call", "drop", "assert"):
+            if t.get("target") is None:
+                return
+            rec(t["target"], s, env, st, path + [(bb, None)], onpath | {bb})
+            return
+        return
+
+    rec(0, Summary(), {}, {"wrote_buf": False, "wrote_pend": False}, [], frozenset())
     return b, out, {"buffer": buf, "pending": pend, "kvp": kvp}
 
 
